@@ -664,6 +664,48 @@ def capacity_cases(rng, n):
     return [gen_case_B(rng, i, stats) for i in range(n)]
 
 
+def gen_case_processor(rng, via):
+    """the same claim through a REAL processor: the rule list arrives in the collector's connect reply, the contributions
+    as TXN messages, and the metric payload of the harvest path [via] (all-at-once tick, default-data tick, final flush)
+    is read back (seeded/C07g1: one path took its rules from somewhere else).  Names and rules stay under "Vf/"."""
+    base = ["Vf/legacy/job", "Vf/current/job", "Vf/a", "Vf/q/c", "Vf/q/d", "Vf/legacy/mail"]
+    names = rng.sample(base, rng.randint(2, 5))
+    if rng.random() < 0.7 and "Vf/legacy/job" not in names:
+        names.append("Vf/legacy/job")
+    txns = rng.sample(["WebTransaction/Uri/vf", "OtherTransaction/php/vfjob"], rng.randint(1, 2))
+    t = new_node("real")
+    bit = 0
+    for _ in range(rng.randint(1, 4)):
+        ms = []
+        for _ in range(rng.randint(1, 4)):
+            ms.append({"name": rng.choice(names), "scoped": rng.random() < 0.5, "forced": False,
+                       "d": [1, 1 << bit, rng.randrange(1 << 20), rng.randrange(1 << 20), rng.randrange(1 << 20), rng.randrange(1 << 20)]})
+            bit += 1
+        t = {"k": "txn", "b": t, "txn": rng.choice(txns), "ms": ms}
+    pool = [{"match_expression": "^Vf/legacy/(.*)$", "replacement": "Vf/current/\\1"},
+            {"match_expression": "^Vf/q/", "replacement": "Vf/r/"},
+            {"match_expression": "^Vf/a$", "ignore": True, "replacement": ""},
+            {"match_expression": "^Vf/q/d$", "replacement": "Vf/q/c", "terminate_chain": True},
+            {"match_expression": "^Vf/current/job$", "replacement": "Vf/done"}]
+    picked = rng.sample(pool, rng.randint(1, 3))
+    if rng.random() < 0.7 and pool[0] not in picked:
+        picked.append(pool[0])
+    orders = rng.sample(range(0, 20), len(picked))
+    rules = []
+    for r, o in zip(picked, orders):
+        r = dict(r)
+        r["eval_order"] = o
+        rules.append(r)
+    which = rng.random()
+    rj = json.dumps(rules) if which < 0.85 else ("[]" if which < 0.93 else None)
+    return {"cls": "A", "mode": "full", "cmp_forced": False, "tree": {"k": "rules", "b": t, "rules": rj, "via": via},
+            "desc": "processor path=%s rules=%d" % (via, len(rules))}
+
+
+def processor_cases(rng, n):
+    return [gen_case_processor(rng, ("all", "default", "exit")[i % 3]) for i in range(n)]
+
+
 def run_table_cases(chk, tcases, tag, what):
     """run table cases against the real MetricTable and judge them in Coq (correspondence with Metrics.exec and
     the table monitors); used by the C02 check for the attempt bound of metric payloads"""
@@ -859,6 +901,10 @@ def run(chk, replay=None):
     for i in res["r_mon_bad"][:5]:
         chk.fail("rules_%d.json" % i, {"what": "MetricRules.Apply result differs from the rule specification (or rules not in ascending eval_order)",
                                         "rules": [rcases[i]], "observed": robs[i]}, sig="c07-rules-apply")
+    if not replay:
+        run_table_cases(chk, processor_cases(random.Random(chk.seed + 11), 18 if quick else 120), "c07via",
+                        "the metric payload a REAL processor sends on this harvest path differs from the rules of the connect "
+                        "reply applied to the field-wise combination of the transactions' contributions")
     broken = []
     if not st["build_ok"]:
         broken.append("theorems of PropC07.v no longer check:\n" + st["log"][-3000:])
